@@ -12,8 +12,8 @@ import (
 // The implementation evaluates the binomial CDF in float64 through gonum's incomplete beta
 // function. Its error is *relative to the smaller of the two tail masses* it computes and grows with
 // the stake n (cancellation between log-gamma terms of magnitude n·ln n): measured peak relative
-// error ≈ 3·2^-53·n·ln n (1.8e-8 absolute at n = 10^7 near the mean, so the flat 1e-9 of the first
-// plan was unsound). The band inside which the oracle abstains is therefore, at the boundary
+// error ≈ 3..6·2^-53·n·ln n (1.8e-8 absolute at n = 10^7 near the mean, so the flat 1e-9 of the
+// first plan was unsound). The band inside which the oracle abstains is therefore, at the boundary
 // between k and k+1 seats (B(k) = Pr(X<=k)):
 //
 //   tol(k) = rho(n) · min(Pr(X<=k), Pr(X>k))  +  2^-51 · pmf(k) · (n-k)
@@ -22,9 +22,14 @@ import (
 //
 // The second term is the first-order effect on B(k) of perturbing 1-p by one part in 2^51
 // (dB(k)/dp = -pmf(k)(n-k)/(1-p)): the code forms 1-p and 1-(1-p) in float64, which moves p by at
-// most 2^-54 (half an ulp of 1-p >= 1/2; exact for p >= 1/2), i.e. at most a quarter of this term.
-// For p < 2^-54 the code's 1-p is 1 and it answers 0 seats for every output: that too stays
-// inside this term (n·p < 6e-10 for every stake <= 10^7).
+// most 2^-54 (half an ulp of 1-p >= 1/2; exact for p >= 1/2), i.e. at most an eighth of this term.
+//
+// For p < 2^-40 that perturbation is no longer small relative to p itself (for p < 2^-54 the
+// code's 1-p is exactly 1 and it answers 0 seats for every output; n·p < 1e-5 for every stake
+// <= 10^7 in this regime) and the first-order term is replaced by the exact statement of the same
+// allowance: two more tables are built at p-2^-52 and p+2^-52, "too few seats" is judged against
+// the former (largest CDF) and "too many seats" against the latter (smallest CDF).
+//
 // One seat's own mass pmf(k) exceeds tol(k) by orders of magnitude everywhere except in far tails
 // of near-degenerate distributions, so off-by-one answers, a wrong mirror, a swapped inequality or
 // a wrong branch are refuted while float noise is not. Samples inside the band are counted as
@@ -41,54 +46,74 @@ func rho(n int64) float64 {
 	return r
 }
 
+var tinyP = math.Ldexp(1, -40)
+var deltaP = math.Ldexp(1, -52)
+
 type oracle struct {
 	tb    *model.C04Table
 	rho   *big.Float
 	eps51 *big.Float
 	half  *big.Float
+	// exact perturbation tables for p < 2^-40 (perturbed == true):
+	perturbed bool
+	lo, hi    *model.C04Table // lo == nil with perturbed: p-2^-52 <= 0, i.e. all mass on 0 seats
 }
 
 func newOracle(tb *model.C04Table) *oracle {
-	return &oracle{tb: tb, rho: model.C04F(rho(tb.N)), eps51: model.C04F(math.Ldexp(1, -51)), half: model.C04F(0.5)}
+	o := &oracle{tb: tb, rho: model.C04F(rho(tb.N)), eps51: model.C04F(math.Ldexp(1, -51)), half: model.C04F(0.5)}
+	if tb.P < tinyP {
+		o.perturbed = true
+		if tb.P-deltaP > 0 {
+			o.lo = model.C04NewTable(tb.N, tb.P-deltaP, 200000)
+		}
+		o.hi = model.C04NewTable(tb.N, tb.P+deltaP, 200000)
+	}
+	return o
 }
 
-// tolParts returns the two terms of tol(k): the incomplete-beta term and the 1-p rounding term.
-func (o *oracle) tolParts(k int64) (beta, round *big.Float) {
-	c, s := o.tb.CdfAt(k), o.tb.SfAt(k)
+// tolParts returns the two terms of tol(k) on table tb: the incomplete-beta term and the 1-p
+// rounding term (zero when the perturbation is handled by the lo/hi tables).
+func (o *oracle) tolParts(tb *model.C04Table, k int64) (beta, round *big.Float) {
+	c, s := tb.CdfAt(k), tb.SfAt(k)
 	m := c
 	if s.Cmp(c) < 0 {
 		m = s
 	}
 	beta = model.C04New().Mul(o.rho, m)
 	round = model.C04New()
-	if k >= o.tb.Lo && k <= o.tb.Hi && k < o.tb.N {
-		round.Mul(o.eps51, o.tb.PmfAt(k))
-		round.Mul(round, model.C04New().SetInt64(o.tb.N-k))
+	if !o.perturbed && k >= tb.Lo && k <= tb.Hi && k < tb.N {
+		round.Mul(o.eps51, tb.PmfAt(k))
+		round.Mul(round, model.C04New().SetInt64(tb.N-k))
 	}
 	return
 }
 
-// tol(k) as above.
-func (o *oracle) tol(k int64) *big.Float {
-	b, r := o.tolParts(k)
+func (o *oracle) tolOn(tb *model.C04Table, k int64) *big.Float {
+	b, r := o.tolParts(tb, k)
 	return b.Add(b, r)
 }
+
+// tol(k) on the central table (used to place targeted hashes).
+func (o *oracle) tol(k int64) *big.Float { return o.tolOn(o.tb, k) }
 
 // betaDominated: the incomplete-beta term is at least 100× the rounding term of tol(k) (then the
 // distance of an inexact answer, as a fraction of the band, measures the headroom left over
 // gonum's own error).
 func (o *oracle) betaDominated(k int64) bool {
-	b, r := o.tolParts(k)
+	if o.perturbed {
+		return false
+	}
+	b, r := o.tolParts(o.tb, k)
 	return b.Cmp(r.Mul(r, model.C04F(100))) >= 0
 }
 
-// margin returns B(k) - t, computed on the side that keeps relative accuracy.
-func (o *oracle) margin(k int64, t, s *big.Float) *big.Float {
+// margin returns B(k) - t on table tb, computed on the side that keeps relative accuracy.
+func (o *oracle) margin(tb *model.C04Table, k int64, t, s *big.Float) *big.Float {
 	if t.Cmp(o.half) <= 0 {
-		return model.C04New().Sub(o.tb.CdfAt(k), t)
+		return model.C04New().Sub(tb.CdfAt(k), t)
 	}
 	// B(k) - t = (1 - Sf(k)) - (1 - s) = s - Sf(k)
-	return model.C04New().Sub(s, o.tb.SfAt(k))
+	return model.C04New().Sub(s, tb.SfAt(k))
 }
 
 type verdict int
@@ -101,53 +126,78 @@ const (
 
 type judgement struct {
 	v       verdict
-	exact   bool    // j is the exact quantile
+	exact   bool    // j is the exact quantile for p itself
 	side    string  // for vWrong: "low" (cdf(j) < t) or "high" (cdf(j-1) >= t)
 	bandPPM float64 // for inexact answers inside the band: distance / tolerance, in ppm
 	betaDom bool    // the boundary concerned has a band dominated by the incomplete-beta term
+}
+
+// tooFew: Pr(X<=j) stays below t by more than the band (for every admissible p).
+func (o *oracle) tooFew(j int64, t, s *big.Float) bool {
+	tb := o.tb
+	if o.perturbed {
+		if o.lo == nil {
+			return false // p - 2^-52 <= 0: with p = 0 every j reaches every t
+		}
+		tb = o.lo
+	}
+	m := o.margin(tb, j, t, s)
+	if m.Sign() >= 0 {
+		return false
+	}
+	return m.Neg(m).Cmp(o.tolOn(tb, j)) > 0
+}
+
+// tooMany: j > 0 and already Pr(X<=j-1) reaches t by at least the band (for every admissible p).
+func (o *oracle) tooMany(j int64, t, s *big.Float) bool {
+	if j <= 0 {
+		return false
+	}
+	tb := o.tb
+	if o.perturbed {
+		if o.hi == nil {
+			return false
+		}
+		tb = o.hi
+	}
+	m := o.margin(tb, j-1, t, s)
+	if m.Sign() < 0 {
+		return false
+	}
+	return m.Cmp(o.tolOn(tb, j-1)) >= 0
 }
 
 // judge decides whether j can be the smallest seat count whose cumulative probability reaches
 // t = h/(2^256-1) (s = 1-t), for 0 < t < 1.
 func (o *oracle) judge(j int64, t, s *big.Float) judgement {
 	res := judgement{exact: true}
-	var zero big.Float
-	// lower condition: B(j) >= t
-	mLow := o.margin(j, t, s) // >= 0 when satisfied
-	tolJ := o.tol(j)
-	robustLow := mLow.Cmp(tolJ) >= 0
+	if o.tooFew(j, t, s) {
+		return judgement{v: vWrong, side: "low"}
+	}
+	if o.tooMany(j, t, s) {
+		return judgement{v: vWrong, side: "high"}
+	}
+	// exactness for p itself, and how far inside the band an inexact answer lies
+	mLow := o.margin(o.tb, j, t, s) // >= 0 when Pr(X<=j) >= t
 	if mLow.Sign() < 0 {
 		res.exact = false
-		neg := model.C04New().Neg(mLow)
-		if neg.Cmp(tolJ) > 0 {
-			res.v, res.side = vWrong, "low"
-			return res
-		}
-		if tolJ.Cmp(&zero) > 0 {
-			f, _ := model.C04New().Quo(neg, tolJ).Float64()
+		if tolJ := o.tol(j); tolJ.Sign() > 0 {
+			f, _ := model.C04New().Quo(model.C04New().Neg(mLow), tolJ).Float64()
 			res.bandPPM, res.betaDom = f*1e6, o.betaDominated(j)
 		}
 	}
-	// upper condition: j == 0 or B(j-1) < t
-	robustHigh := true
 	if j > 0 {
-		mHigh := o.margin(j-1, t, s) // < 0 when satisfied
-		tolP := o.tol(j - 1)
+		mHigh := o.margin(o.tb, j-1, t, s) // < 0 when Pr(X<=j-1) < t
 		if mHigh.Sign() >= 0 {
 			res.exact = false
-			if mHigh.Cmp(tolP) >= 0 {
-				res.v, res.side = vWrong, "high"
-				return res
-			}
-			if tolP.Cmp(&zero) > 0 {
+			if tolP := o.tol(j - 1); tolP.Sign() > 0 {
 				f, _ := model.C04New().Quo(mHigh, tolP).Float64()
 				res.bandPPM, res.betaDom = f*1e6, o.betaDominated(j-1)
 			}
 		}
-		neg := model.C04New().Neg(mHigh)
-		robustHigh = neg.Cmp(tolP) > 0
 	}
-	if res.exact && robustLow && robustHigh {
+	// decisive: exact, and the oracle would have refuted both j-1 (too few) and j+1 (too many)
+	if res.exact && (j == 0 || o.tooFew(j-1, t, s)) && (j >= o.tb.N || o.tooMany(j+1, t, s)) {
 		res.v = vDecisive
 	} else {
 		res.v = vAmbiguous
